@@ -176,6 +176,9 @@ pub struct TcpClient {
     pub id: String,
     pub src: String,
     pub dst: String,
+    /// TPROXY: the connection addressed to `dst` is diverted to the proxy's listener at this address
+    #[serde(default)]
+    pub via: Option<String>,
     #[serde(default)]
     pub start_ms: u64,
     #[serde(default)]
@@ -284,6 +287,9 @@ pub struct Reader {
     pub eof: bool,
     pub total: u64,
     pub hash: Fnv,
+    /// slow reader: at most `pace_chunk` bytes per read, `pace_gap_ms` between reads (op "pace")
+    pub pace_chunk: usize,
+    pub pace_gap_ms: u64,
 }
 pub struct Writer {
     pub wr: Option<WriteHalf<BoxStream>>,
@@ -308,7 +314,10 @@ impl Reader {
             Some(r) => r,
             None => return Err(std::io::Error::new(std::io::ErrorKind::NotConnected, "closed")),
         };
-        let mut tmp = vec![0u8; 65536];
+        if self.pace_gap_ms > 0 {
+            tokio::time::sleep(Duration::from_millis(self.pace_gap_ms)).await;
+        }
+        let mut tmp = vec![0u8; if self.pace_chunk > 0 { self.pace_chunk.min(65536) } else { 65536 }];
         let n = rd.read(&mut tmp).await?;
         if n == 0 {
             self.eof = true;
@@ -365,6 +374,11 @@ async fn read_op(ctx: &ConnCtx, r: &mut Reader, i: &str, op: &Op) -> Outcome {
     let timeout = Duration::from_millis(op.timeout_ms.unwrap_or(super::d_timeout()));
     let fut = async {
         match op.op.as_str() {
+            "pace" => {
+                r.pace_chunk = op.chunk;
+                r.pace_gap_ms = op.gap_ms;
+                ("ok".to_string(), Vec::new())
+            }
             "recv_n" => {
                 while r.buf.len() < op.n {
                     match r.fill().await {
@@ -641,7 +655,7 @@ async fn write_op(ctx: &ConnCtx, w: &mut Writer, i: &str, op: &Op) -> Outcome {
 }
 
 fn is_read_op(o: &str) -> bool {
-    matches!(o, "recv_n" | "recv_until" | "recv_http_head" | "recv_socks5_reply" | "recv_socks4_request" | "recv_rpfm" | "collect_rpfm" | "recv_eof" | "expect")
+    matches!(o, "recv_n" | "recv_until" | "recv_http_head" | "recv_socks5_reply" | "recv_socks4_request" | "recv_rpfm" | "collect_rpfm" | "recv_eof" | "expect" | "pace")
 }
 fn is_write_op(o: &str) -> bool {
     matches!(o, "send" | "shutdown")
@@ -737,7 +751,7 @@ async fn run_writer_seq(ctx: &ConnCtx, w: &mut Writer, prefix: &str, ops: &[Op])
 /// then dropped (closed) unless a `reset` op aborted it earlier.
 pub async fn run_script(ctx: ConnCtx, stream: BoxStream, ops: Vec<Op>) {
     let (rd, wr) = tokio::io::split(stream);
-    let mut r = Reader { rd: Some(rd), buf: Vec::new(), eof: false, total: 0, hash: Fnv::new() };
+    let mut r = Reader { rd: Some(rd), buf: Vec::new(), eof: false, total: 0, hash: Fnv::new(), pace_chunk: 0, pace_gap_ms: 0 };
     let mut w = Writer { wr: Some(wr), total: 0, hash: Fnv::new() };
     let mut completed = true;
     for (k, op) in ops.iter().enumerate() {
@@ -848,7 +862,10 @@ async fn run_tcp_client(_idx: usize, c: TcpClient, sh: Arc<Shared>) {
     let chaos = c.chaos.as_ref().map(|x| x.to_sim());
     let t0 = sim::now_us();
     let s0 = sim::stamp();
-    let tcp = sim::tcp_connect_from(src, dst, &format!("c:{}", c.id), chaos).await;
+    let tcp = match c.via.as_deref() {
+        Some(v) => sim::tcp_connect_diverted(src, dst, parse_addr(v), &format!("c:{}", c.id), chaos).await,
+        None => sim::tcp_connect_from(src, dst, &format!("c:{}", c.id), chaos).await,
+    };
     let tcp = match tcp {
         Ok(s) => s,
         Err(e) => {
